@@ -50,6 +50,16 @@ func init() {
 			if other := tableIds[(cs.Id*7+len(cs.S)+len(cs.Codon))%len(tableIds)]; other != cs.Id {
 				b, _ := json.Marshal(codon.GetCodonTable(other))
 				_ = codon.ParseCodonJSON(b)
+				// ... and neither is combining this code's table with another code's (in either operand order)
+				// (what those calls return or whether they refuse tables of two codes is C18's business, not checked here)
+				quietly := func(f func()) { defer func() { _ = recover() }(); f() }
+				quietly(func() {
+					_, _ = codon.CompromiseCodonTable(codon.GetCodonTable(cs.Id), codon.GetCodonTable(other), 0.1)
+				})
+				quietly(func() {
+					_, _ = codon.CompromiseCodonTable(codon.GetCodonTable(other), codon.GetCodonTable(cs.Id), 0.1)
+				})
+				quietly(func() { _ = codon.AddCodonTable(codon.GetCodonTable(cs.Id), codon.GetCodonTable(other)) })
 			}
 			t := codon.GetCodonTable(cs.Id)
 			switch cs.K {
